@@ -9,7 +9,8 @@
    1  Write calls straight on the stream logger
    2  concurrent senders: the LTS run under the schedule read off the wire
    3  op history on a client over the real WebSocket transport whose TCP
-      connection starts failing every write from socket call k0 on *)
+      connection starts failing every write from socket call k0 on
+   4  Client.Connect's own send of the initial presence *)
 From Coq Require Import List ZArith NArith Bool Arith.
 From XV Require Import Lib.Sx Model.Queue Model.Send.
 Import ListNotations.
@@ -57,7 +58,8 @@ Inductive cinput :=
 | ISeq (cfg : config) (so lo : list (nat * wres)) (ops : list op)
 | ILogger (so lo : list (nat * wres)) (ps : list str)
 | IConc (senders : list (list str)) (sched : list nat)
-| IWs (sm lg : bool) (k0 : nat) (ops : list op).
+| IWs (sm lg : bool) (k0 : nat) (ops : list op)
+| IConnect (reset : bool).
 
 Definition dec_input (x : sx) : option cinput :=
   match x with
@@ -72,6 +74,7 @@ Definition dec_input (x : sx) : option cinput :=
   | SL [SZ 3; sm; lg; k0; ops] =>
       do s <- as_b sm; do l <- as_b lg; do k <- as_nat k0; do o <- as_list dec_op ops;
       Some (IWs s l k o)
+  | SL [SZ 4; reset] => do r <- as_b reset; Some (IConnect r)
   | _ => None
   end.
 
@@ -109,6 +112,14 @@ Definition run_typed (i : cinput) : sx :=
       let '(rs, st) := run (mkC RClient sm lg CUp true) so (fun _ => WErr 0) st0 ops in
       SL [SL (map result_sx rs); SS (stream so 0 (s_sock st));
           strs_sx (map snd (q_items (s_queue st)))]
+  | IConnect reset =>
+      (* Client.Connect's own send: SendRaw(InitialPresence) on the session just established;
+         Connect returns its result, PostConnectHook or not.  Output: error?, did the peer get it *)
+      let so := fun k : nat => if reset then WErr 0 else WOk in
+      let pres := [60; 112; 47; 62]%N in
+      let '(rs, st) := run (mkC RClient false false CUp false) so (fun _ => WOk) st0 [OSendRaw pres false] in
+      SL [match rs with [r] => result_sx r | _ => SZ (-1) end;
+          SB (negb (match stream so 0 (s_sock st) with [] => true | _ => false end))]
   end.
 
 Definition run_C08 : sx -> sx := with_input dec_input run_typed.
